@@ -132,7 +132,30 @@ PairInit ==
              /\ PrintT(ToJson(<<"CASE", t, <<s1, s2>>,
                                 IF r2.ok THEN Ok([j \in 1..Len(r2.rows) |-> r1.rows[r2.rows[j] + 1]]) ELSE KE>>))
 
-Init == IF Mode = "single" THEN SingleInit ELSE PairInit
+(* the n-ary form of the law, n = 3: rows[s1, s2, s3] = rows[s1].rows[s2].rows[s3] *)
+Selectors3(n) ==
+     {Pos(i) : i \in 0..(n - 1)}
+  \cup {Re(R, c, o) : R \in {{"a"}, {"a", "b"}, {"a", "b", "c"}}, c \in {NoCount, -1}, o \in {0, 1}}
+  \cup {Span(a, b) : a \in {<<>>, <<"a", NoCount>>}, b \in {<<>>, <<"b", -1>>}}
+  \cup {Slice(1, None, 1), Slice(None, 2, 1), Slice(None, None, 2)}
+  \cup {List(l) : l \in Lists(n)}
+TripleInit ==
+  \E t \in Tables(PairMaxLen) : \E s1 \in Selectors3(Len(t)) \cup {Range(1, None, "v")} :
+     LET r1 == Sel(t, s1) IN
+     /\ r1.ok /\ Inside(t, r1.rows)
+     /\ \E s2 \in Selectors3(Len(r1.rows)) :
+          LET t1 == SubTable(t, r1.rows)
+              r2 == Sel(t1, s2)
+          IN /\ r2.ok /\ Inside(t1, r2.rows)
+             /\ \E s3 \in Selectors3(Len(r2.rows)) :
+                  LET t2 == SubTable(t1, r2.rows)
+                      r3 == Sel(t2, s3)
+                  IN /\ Valid(t2, r3)
+                     /\ case = <<t, s1, s2, s3>>
+                     /\ PrintT(ToJson(<<"CASE", t, <<s1, s2, s3>>,
+                                        IF r3.ok THEN Ok([j \in 1..Len(r3.rows) |-> r1.rows[r2.rows[r3.rows[j] + 1] + 1]]) ELSE KE>>))
+
+Init == IF Mode = "single" THEN SingleInit ELSE IF Mode = "pair" THEN PairInit ELSE TripleInit
 Next == UNCHANGED case
 
 (* sanity of the reference semantics itself *)
